@@ -46,7 +46,11 @@ struct Snap {
 }
 
 fn snap(w: &SimWorld) -> Snap {
-    let e = w.app.world.entity(w.entity);
+    snap_of(w, w.entity)
+}
+
+fn snap_of(w: &SimWorld, entity: Entity) -> Snap {
+    let e = w.app.world.entity(entity);
     let an = e.get::<Animator<Target>>().expect("animator");
     let sel = e.get::<AnimationSelector<Key, Target>>();
     let other = e.get::<Animator<Other>>().map(|a| {
@@ -273,8 +277,10 @@ fn execute(scn: &BScn, property: &str) -> RunOutcome {
             .get::<AnimationSelector<Key, Target>>()
             .map(|s| s.timeline_key);
         for op in &frame.ops {
+            let targets: Vec<Entity> = std::iter::once(w.entity).chain(w.mirror).collect();
             let r = catch(|| {
-                let mut e = w.app.world.entity_mut(w.entity);
+              for target_entity in &targets {
+                let mut e = w.app.world.entity_mut(*target_entity);
                 match op {
                     BOp::SetKey(k) => {
                         if let Some(mut sel) = e.get_mut::<AnimationSelector<Key, Target>>() {
@@ -300,6 +306,7 @@ fn execute(scn: &BScn, property: &str) -> RunOutcome {
                         }
                     }
                 }
+              }
             });
             if let Err(p) = r {
                 bail_panic!(p, fi, format!("{op:?}"));
@@ -379,6 +386,41 @@ fn execute(scn: &BScn, property: &str) -> RunOutcome {
             h.u32(rank(*st) as u32 + 100);
         }
         out.evaluations += 1;
+
+        // ---- symmetry: the mirror entity got the same configuration and the same operations ----
+        if let Some(mirror) = w.mirror {
+            let ms = snap_of(&w, mirror);
+            hash_snap(&mut h, &ms);
+            out.count("probe.mirror_entity_frame");
+            let mine: Vec<u8> = events.iter().filter(|(e, _)| *e == w.entity).map(|(_, s)| rank(*s)).collect();
+            let theirs: Vec<u8> = events.iter().filter(|(e, _)| *e == mirror).map(|(_, s)| rank(*s)).collect();
+            let differs = if ms.state != after.state {
+                Some(format!("state {:?} vs {:?}", after.state, ms.state))
+            } else if ms.pos != after.pos {
+                Some(format!("position {:?} vs {:?}", after.pos, ms.pos))
+            } else if ms.comp != after.comp {
+                Some(format!("component {} vs {}", tbrief(&after.comp), tbrief(&ms.comp)))
+            } else if ms.key != after.key || ms.acted != after.acted {
+                Some(format!("selector key/acted {:?}/{:?} vs {:?}/{:?}", after.key, after.acted, ms.key, ms.acted))
+            } else if ms.other.map(|o| (o.0, o.1)) != after.other.map(|o| (o.0, o.1)) {
+                Some(format!("second animator {:?} vs {:?}", after.other, ms.other))
+            } else if mine != theirs {
+                Some(format!("events {mine:?} vs {theirs:?}"))
+            } else {
+                None
+            };
+            if let Some(d) = differs {
+                let prop = if check19 { "C19" } else if check18 { "C18" } else { property };
+                out.violation = Some(viol(
+                    prop,
+                    "identical-entities-diverge",
+                    fi,
+                    format!("frame {fi}: two entities with identical configuration and identical operations differ (main vs mirror): {d}"),
+                    "mirror".into(),
+                ));
+                break;
+            }
+        }
 
         // ---- re-target detection (selector acted on a key change in this frame) ---------------
         let retargeted = cfg.selector && after.acted != before.acted;
@@ -601,7 +643,7 @@ fn execute(scn: &BScn, property: &str) -> RunOutcome {
             if got_sorted != exp_sorted {
                 fail!("C18", "events-do-not-match-state-changes", "frame {fi}: state {state_base:?} -> {:?} (second animator {:?} -> {:?}); events sent: {mine:?}, expected {expected:?}", after.state, before.other.map(|o| o.0), after.other.map(|o| o.0));
             }
-            if events.iter().any(|(e, _)| *e != w.entity && Some(*e) != w.extra) {
+            if events.iter().any(|(e, _)| *e != w.entity && Some(*e) != w.extra && Some(*e) != w.mirror) {
                 fail!("C18", "event-for-wrong-entity", "frame {fi}: an event names an entity without an animator");
             }
             if target_changed && after.state == AnimationState::Ended {
